@@ -587,6 +587,13 @@ def clauseBody : Clause → String
   | .rejectedF2_02 => "batch_exactly_once: a well-formed batch containing a notification is rejected as a duplicate id; the read error tears the session down (F2)"
   | .rejected02 => "batch_exactly_once: a well-formed batch is rejected by Read"
   | .dtWrite => "decode_total: ioConn.Write panicked"
+  | .refRefused => "content_roundtrip: CompleteReference.MarshalJSON refused a consistent reference"
+  | .refChanged => "content_roundtrip: a CompleteReference did not come back as itself from marshal → unmarshal"
+  | .refInconsistentWritten =>
+    "content_roundtrip: CompleteReference.MarshalJSON wrote an inconsistent reference (unknown type, or a member of the other type)"
+  | .refInconsistentAccepted =>
+    "content_roundtrip: CompleteReference.UnmarshalJSON accepted an inconsistent reference (unknown type, or a member of the other type)"
+  | .refReencDiffers => "content_roundtrip: an accepted CompleteReference is not written again as its encoding"
   | .logDiffers p l =>
     s!"encode_decode_preserves: LoggingTransport: the log ({l} entries) does not show the {p} messages that passed through the connection, in order, each as `read: ` / `write: ` + an encoding of that message"
   | .cwCrash c => s!"ndjson_roundtrip: concurrent Writes on one connection: ioConn.Write {crashText c}"
@@ -725,6 +732,12 @@ def pLogEntries (fuel : Nat) (ts : List String) (acc : List (Option LogEntry)) :
       | some (v, r') => pLogEntries fuel r' (some (if t == "r" then .read v else .write v) :: acc)
       | none => none
     else none
+
+def showRefErr : RefErr → String
+  | .unknownType => "unknown-type" | .promptWithURI => "prompt-with-uri"
+  | .resourceWithName => "resource-with-name" | .notStruct => "other"
+
+def showRef (r : CRef) : String := s!"ok s{hexB r.typ} s{hexB r.name} s{hexB r.uri}"
 
 def stepWire (d : DState) (toks : List String) (impl : String) : DState × Verdict :=
   let itoks := words impl
@@ -1085,6 +1098,44 @@ def stepWire (d : DState) (toks : List String) (impl : String) : DState × Verdi
       let viol := if d.pid == "C19" then cwMonitor d.mon.outCap msgs obs else
         (match obs with | .crash _ => some .writePanic02 | _ => none)
       ({ d with io := io', mon := mon' }, { model := model, violated := viol.map (clauseText d.pid) })
+    | _ => bad d
+  | ["ref.rt", t, n, u] =>
+    -- `json.Marshal(&CompleteReference{…})`, then `json.Unmarshal` of the text: `refused <class>` / `ok <J> | ok s s s` / `ok <J> | err <class>`
+    match pStr [t], pStr [n], pStr [u] with
+    | some (t, []), some (n, []), some (u, []) =>
+      let r : CRef := ⟨t, n, u⟩
+      let model := match encodeRef r with
+        | .error e => "refused " ++ showRefErr e
+        | .ok v => "ok " ++ showJ v ++ " | " ++ (match decodeRef v with
+          | .ok r' => showRef r' | .error e => "err " ++ showRefErr e)
+      let obs : RefRtObs := match impl.splitOn " | " with
+        | [a] => if a.startsWith "refused " then .refused else .other
+        | [a, b] => (match pJ ((words a).drop 1), words b with
+          | some (v, []), ["ok", t', n', u'] => (match pStr [t'], pStr [n'], pStr [u'] with
+            | some (t', []), some (n', []), some (u', []) => .written v (some ⟨t', n', u'⟩)
+            | _, _, _ => .other)
+          | some (v, []), "err" :: _ => .written v none
+          | _, _ => .other)
+        | _ => .other
+      out19 d model (refRtMonitor r obs)
+    | _, _, _ => bad d
+  | "ref.dec" :: r =>
+    -- `json.Unmarshal` of a JSON value into a CompleteReference, then `json.Marshal` of the result
+    match pJ r with
+    | some (v, []) =>
+      let model := match decodeRef v with
+        | .error e => "err " ++ showRefErr e
+        | .ok r => showRef r ++ " | " ++ (match encodeRef r with | .ok w => showJ w | .error e => "refused " ++ showRefErr e)
+      let obs : RefDecObs := match impl.splitOn " | " with
+        | [a] => if a.startsWith "err " then .rejected else .other
+        | [a, b] => (match words a with
+          | ["ok", t', n', u'] => (match pStr [t'], pStr [n'], pStr [u'] with
+            | some (t', []), some (n', []), some (u', []) =>
+              .accepted ⟨t', n', u'⟩ (match pJ (words b) with | some (w, []) => some w | _ => none)
+            | _, _, _ => .other)
+          | _ => .other)
+        | _ => .other
+      out19 d model (refDecMonitor obs)
     | _ => bad d
   | "io.write" :: r =>
     match pMsg r with
